@@ -87,6 +87,15 @@ def polygon_stream(ctx, n):
         eq = call_impl(lambda: (P0 == P1, P0 == P2, P0 == P3, P1 == P0))
         if eq[0] != "ok" or tuple(bool(x) for x in eq[1]) != (True, True, False, True):
             ctx.disagree("C17:eq:polygon", f"polygon {vs} roll={r}", (True, True, False, True), eq[1:3], replay=[str(vs)])
+        # far from the origin, one vertex moved by 0.004 (the points are clearly different for Point.__eq__): not equal
+        big = [(float(x) + 1000.0, float(y) + 900.0) for x, y in vs]
+        near = list(big)
+        near[0] = (near[0][0] + 0.004, near[0][1])
+        P5, P6 = g.Polygon(*[g.Point(x, y) for x, y in big]), g.Polygon(*[g.Point(x, y) for x, y in near])
+        ctx.count("eq:near")
+        eq5 = call_impl(lambda: (P5 == P6, P6 == P5, P5 == g.Polygon(*[g.Point(x, y) for x, y in big[1:] + big[:1]])))
+        if eq5[0] != "ok" or tuple(bool(x) for x in eq5[1]) != (False, False, True):
+            ctx.disagree("C17:eq:near-miss", f"polygon {big} vs the same with vertex 0 moved by 0.004", (False, False, True), eq5[1:3], replay=[str(vs)])
         if len(vs) >= 4:
             # the same vertex SET threaded in another cyclic order (two neighbours swapped) is a different polygon
             j = rng.randrange(len(vs))
